@@ -46,3 +46,11 @@ CHECKS["C12"] = (
     "Trusted: float64 torch.linalg.qr/eigh as reference; the sensitivity probe (a perturbed float64 run) decides which clusters are comparable, so ill-conditioned clusters are counted vacuous rather than judged.",
     "DESIGN.md 3 C12",
 )
+
+CHECKS["C14"] = (
+    "exploration",
+    "runtime monitoring: the three copies of the assignment / buffer-splitting code called directly (and live distributors on simulated ranks), judged by a tie-agnostic LPT-consistency checker, brute-force optimum and byte-level buffer geometry",
+    "Direct family: all multisets of <=5 (quick) / <=7 (thorough) sizes from {1,63,64,65,128,500} x group sizes 1..4 (exhaustive, ties everywhere) plus random sequences up to 200 blocks x group sizes 1..16, each copy: exactly one in-group owner per block, determinism across repeated / interleaved calls, LPT-consistency (some least-loaded rank at every step, any tie rule), spread <= largest block, max load <= 4/3 OPT against brute force (<=9 blocks, <=4 ranks), 64-byte alignment and size >= block. Buffer family: real _construct_distributed_buffers on generated block shapes x communication dtypes: every typed view inside its owner's segment, large enough, contiguous, pairwise disjoint, local list = owner's sub-list. Exhaustive below the stated bound, sampled above.",
+    "Trusted: vf/blocking.py (LPT-consistency search, brute-force optimum). Direct calls use a stub carrying the group size under the attribute names the copies read today; if they move, the family turns inconclusive rather than alarming.",
+    "DESIGN.md 3 C14",
+)
